@@ -1,6 +1,6 @@
 (* C05 - Component trees start in order: construct all, prepare, children, then start. *)
 From Coq Require Import List Bool Arith.
-From Asphalt Require Import Conc.Skeleton Conc.Startup Conc.StartupProofs Conc.StartupFuel.
+From Asphalt Require Import Conc.Skeleton Conc.Startup Conc.StartupProofs Conc.StartupFuel Conc.StartupTie Gen.Gen_startup.
 Import ListNotations.
 
 (* For every component tree (pre-order numbering), every script of every method, every choice of
@@ -69,3 +69,19 @@ Theorem C05_reached_is_quiescent : forall P timeout gs,
   let '(s, tr) := start_run P timeout gs in is_running s = true -> quiescent P s.
 Proof. exact reached_is_quiescent. Qed.
 Print Assumptions C05_reached_is_quiescent.
+
+(* the blocks of _start_component, in the order in which they stand in the source on this run, are the
+   model's phases in the model's order (prepare, then the children, then start), each exactly once; the
+   children are all started in one task group before any of them is waited for *)
+Theorem C05_source_order :
+  map block_rank startup_sequence = [1; 2; 3] /\
+  increasing (0 :: map block_rank startup_sequence ++ [rank Started]) = true.
+Proof. exact source_blocks_are_the_phases. Qed.
+Print Assumptions C05_source_order.
+
+Theorem C05_source_shape :
+  startup_only_overridden_hooks = true /\ startup_children_concurrent = true /\
+  startup_prepare_phase_word_ok = true /\ startup_start_phase_word_ok = true /\
+  startup_wraps_exceptions_only = true /\ startup_state_set_before_hook_call = true.
+Proof. exact startup_source_shape. Qed.
+Print Assumptions C05_source_shape.
